@@ -88,19 +88,13 @@ inductive SymClass where
   | procedureSymbol | derivedTypeSymbol | array | scalar | deferredTypeSymbol
 deriving DecidableEq, Repr
 
-/-- l.860–863 (since the `fix:` commit for `empty-dimensions-array`):
-`if 'dimensions' in kwargs and not kwargs['dimensions']: kwargs.pop('dimensions')` — `None` and the empty tuple
-both mean "no subscripts given" -/
-def normDims : Option Nat → Option Nat
-  | some 0 => none
-  | d => d
-
-/-- the tier chain of `Variable.__new__` (l.852–869).  `dims = none` covers both "no `dimensions`
-keyword" and `dimensions=None`; `some n` is a tuple of length `n` (`some 0` = `()`, popped like `None`). -/
+/-- the tier chain of `Variable.__new__` (l.852–868).  `dims = none` covers both "no `dimensions`
+keyword" and `dimensions=None` (popped at l.860); `some n` is a tuple of length `n` (`some 0` = `()`, which is *not*
+popped: Loki's own transformations rely on `clone(dimensions=())` yielding an `Array`, see notes/C13.md). -/
 def classify (ty : Option Ty) (name : Name) (dims : Option Nat) : SymClass :=
   if isProc ty then .procedureSymbol
   else if isDerivedNamed ty name then .derivedTypeSymbol
-  else if (normDims dims).isSome || shapeTruthy ty then .array
+  else if dims.isSome || shapeTruthy ty then .array
   else if cleanOpt ty then .scalar
   else .deferredTypeSymbol
 
@@ -111,6 +105,10 @@ def refClass (ty : Option Ty) (name : Name) (dims : Option Nat) : SymClass :=
   else if (match dims with | some (_ + 1) => true | _ => false) || shapeTruthy ty then .array
   else if cleanOpt ty then .scalar
   else .deferredTypeSymbol
+
+/-- known-finding class `empty-dimensions-array`: `dimensions=()` and nothing else makes the symbol an array -/
+def KnownEmptyDims (ty : Option Ty) (name : Name) (dims : Option Nat) : Bool :=
+  dims == some 0 && !isProc ty && !isDerivedNamed ty name && !shapeTruthy ty
 
 /-! ## scopes and symbol tables -/
 
